@@ -1291,4 +1291,308 @@ theorem count_integer_example : CountRT (ratIO 0) false 9007199254740993 := ⟨b
 example : dmodelValidB (ratIO (1/1000000)) 2 1 ⟨third, [[[1/4, 3/4], [1, 0]]], [[1/2], [-3]]⟩ = true := by decide +kernel
 example : sexpValidB 2 1 (⟨3, [[⟨0, 1, 2⟩, ⟨1, 1, 1⟩]], [[2], [1]], [⟨0, 0, third⟩], []⟩ : SExp Rat) = true := by decide +kernel
 
+/-! ### truncation on a token boundary is always rejected -/
+
+/-- a reader is *extensible* when a successful read does not depend on what follows the part it consumed -/
+def Ext {α} (rd : Rd α) : Prop := ∀ p q y r, rd p = .ok y r → rd (p ++ q) = .ok y (r ++ q)
+
+theorem pushBack_append (r : Tok) (ts q : Stream) : pushBack r (ts ++ q) = pushBack r ts ++ q := by
+  cases r <;> rfl
+
+theorem ext_rdN : Ext rdN := by
+  intro p q y r h
+  cases p with
+  | nil => simp [rdN] at h
+  | cons t ts =>
+    simp only [rdN, List.cons_append] at h ⊢
+    cases hs : scanN t with
+    | none => simp [hs] at h
+    | some v =>
+      obtain ⟨n, r'⟩ := v
+      simp only [hs, R.ok.injEq] at h ⊢
+      rw [pushBack_append, h.1, h.2]
+      simp
+
+theorem ext_rdD (io : DblIO D) : Ext (rdD io) := by
+  intro p q y r h
+  cases p with
+  | nil => simp [rdD] at h
+  | cons t ts =>
+    simp only [rdD, List.cons_append] at h ⊢
+    cases hs : io.scanD t with
+    | none => simp [hs] at h
+    | some v =>
+      obtain ⟨n, r'⟩ := v
+      simp only [hs, R.ok.injEq] at h ⊢
+      rw [pushBack_append, h.1, h.2]
+      simp
+
+theorem ext_pure {α} (a : α) : Ext (Rd.pure a) := by
+  intro p q y r h
+  simp only [pure_apply, R.ok.injEq] at h ⊢
+  simp [h.1, h.2]
+
+theorem ext_need (c : Bool) : Ext (need c) := by
+  intro p q y r h
+  cases c with
+  | false => simp at h
+  | true => simp only [need_true, R.ok.injEq] at h ⊢; simp [h.2]
+
+theorem ext_bind {α β} (m : Rd α) (f : α → Rd β) (hm : Ext m) (hf : ∀ a, Ext (f a)) : Ext (Rd.bind m f) := by
+  intro p q y r h
+  rw [bind_ok_iff] at h
+  obtain ⟨a, s1, h1, h2⟩ := h
+  rw [bind_ok_iff]
+  exact ⟨a, s1 ++ q, hm p q a s1 h1, hf a s1 q y r h2⟩
+
+theorem ext_rep {α} (rd : Rd α) (h : Ext rd) : ∀ n, Ext (rep rd n)
+  | 0 => ext_pure []
+  | n + 1 => ext_bind _ _ h (fun a => ext_bind _ _ (ext_rep rd h n) (fun r => ext_pure _))
+
+theorem ext_rdMat (io : DblIO D) (rows cols : Nat) : Ext (rdMat io rows cols) := ext_rep _ (ext_rep _ (ext_rdD io) cols) rows
+theorem ext_rdMat3 (io : DblIO D) (k rows cols : Nat) : Ext (rdMat3 io k rows cols) := ext_rep _ (ext_rdMat io rows cols) k
+theorem ext_rdTab3 (k rows cols : Nat) : Ext (rdTab3 k rows cols) := ext_rep _ (ext_rep _ (ext_rep _ ext_rdN cols) rows) k
+
+theorem ext_rdTriplets {V} (rdV : Rd V) (hV : Ext rdV) (rows cols : Nat) : ∀ n, Ext (rdTriplets rdV rows cols n)
+  | 0 => ext_pure []
+  | n + 1 =>
+    ext_bind _ _ ext_rdN fun _ => ext_bind _ _ ext_rdN fun _ => ext_bind _ _ hV fun _ =>
+    ext_bind _ _ (ext_need _) fun _ => ext_bind _ _ (ext_need _) fun _ =>
+    ext_bind _ _ (ext_rdTriplets rdV hV rows cols n) fun _ => ext_pure _
+
+theorem ext_rdSpGen {V} (rdV : Rd V) (hV : Ext rdV) (add : V → V → V) (rows cols : Nat) : Ext (rdSpGen rdV add rows cols) :=
+  ext_bind _ _ ext_rdN fun _ => ext_bind _ _ (ext_need _) fun _ => ext_bind _ _ (ext_rdTriplets rdV hV rows cols _) fun _ => ext_pure _
+
+theorem ext_rdSpMat (io : DblIO D) (rows cols : Nat) : Ext (rdSpMat io rows cols) := ext_rdSpGen _ (ext_rdD io) _ rows cols
+theorem ext_rdSpMat3 (io : DblIO D) (k rows cols : Nat) : Ext (rdSpMat3 io k rows cols) := ext_rep _ (ext_rdSpMat io rows cols) k
+theorem ext_rdCount (io : DblIO D) (vd : Bool) : Ext (rdCount io vd) := by
+  cases vd with
+  | false => exact ext_rdN
+  | true => exact ext_bind _ _ (ext_rdD io) fun _ => ext_pure _
+theorem ext_rdSpTab3 (io : DblIO D) (vd : Bool) (k rows cols : Nat) : Ext (rdSpTab3 io vd k rows cols) :=
+  ext_rep _ (ext_rdSpGen _ (ext_rdCount io vd) _ rows cols) k
+
+theorem ext_rdDExp (io : DblIO D) (S A : Nat) : Ext (rdDExp io S A) :=
+  ext_bind _ _ ext_rdN fun _ => ext_bind _ _ (ext_rdTab3 A S S) fun _ => ext_bind _ _ (ext_rdMat io S A) fun _ =>
+  ext_bind _ _ (ext_rdMat io S A) fun _ => ext_pure _
+
+theorem ext_rdSExp (io : DblIO D) (vd : Bool) (S A : Nat) : Ext (rdSExp io vd S A) :=
+  ext_bind _ _ ext_rdN fun _ => ext_bind _ _ (ext_rdSpTab3 io vd A S S) fun _ => ext_bind _ _ (ext_rdSpMat io S A) fun _ =>
+  ext_bind _ _ (ext_rdSpMat io S A) fun _ => ext_pure _
+
+theorem ext_guard {α} (c : Bool) (m : Rd α) (hm : Ext m) : Ext (fun s => if c then R.bad Sig.threw else m s) := by
+  intro p q y r h
+  cases c with
+  | true => simp at h
+  | false => simpa using hm p q y r (by simpa using h)
+
+theorem ext_rdDModel (io : DblIO D) (S A : Nat) : Ext (rdDModel io S A) :=
+  ext_bind _ _ (ext_rdD io) fun d => ext_guard (!io.discountOk d) _
+    (ext_bind _ _ (ext_rdMat3 io A S S) fun _ => ext_bind _ _ (ext_need _) fun _ => ext_bind _ _ (ext_rdMat io S A) fun _ => ext_pure _)
+
+theorem ext_rdSModel (io : DblIO D) (S A : Nat) : Ext (rdSModel io S A) :=
+  ext_bind _ _ (ext_rdD io) fun d => ext_guard (!io.discountOk d) _
+    (ext_bind _ _ (ext_rdSpMat3 io A S S) fun _ => ext_bind _ _ (ext_need _) fun _ => ext_bind _ _ (ext_rdSpMat io S A) fun _ => ext_pure _)
+
+theorem ext_rdPD {M} (io : DblIO D) (rdM : Rd M) (hM : Ext rdM) (S A O : Nat) : Ext (rdPD io rdM S A O) :=
+  ext_bind _ _ hM fun _ => ext_bind _ _ (ext_rdMat3 io A S O) fun _ => ext_bind _ _ (ext_need _) fun _ => ext_pure _
+theorem ext_rdPS {M} (io : DblIO D) (rdM : Rd M) (hM : Ext rdM) (S A O : Nat) : Ext (rdPS io rdM S A O) :=
+  ext_bind _ _ hM fun _ => ext_bind _ _ (ext_rdSpMat3 io A S O) fun _ => ext_bind _ _ (ext_need _) fun _ => ext_pure _
+theorem ext_rdMPol (io : DblIO D) (S A : Nat) : Ext (rdMPol io S A) :=
+  ext_bind _ _ (ext_rdMat io S A) fun _ => ext_bind _ _ (ext_need _) fun _ => ext_pure _
+
+theorem ext_rdEntry (io : DblIO D) (S A O oldH : Nat) : Ext (rdEntry io S A O oldH) :=
+  ext_bind _ _ (ext_rep _ (ext_rdD io) S) fun _ => ext_bind _ _ ext_rdN fun _ => ext_bind _ _ (ext_need _) fun _ =>
+  ext_bind _ _ (ext_rep _ (ext_bind _ _ ext_rdN fun _ => ext_bind _ _ (ext_need _) fun _ => ext_pure _) O) fun _ => ext_pure _
+
+/-- **a strict token prefix of a written object is never accepted** (generic form) -/
+theorem strict_prefix_fails {α} (rd : Rd α) (wr : α → Stream) (hext : Ext rd) (x : α) (hrt : RoundTrips rd wr x)
+    (p q : Stream) (hpq : wr x = p ++ q) (hq : q ≠ []) : ∃ e, rd p = .bad e := by
+  cases h : rd p with
+  | bad e => exact ⟨e, rfl⟩
+  | ok y r =>
+    have h1 := hext p q y r h
+    have h2 := hrt []
+    rw [List.append_nil, hpq, h1] at h2
+    injection h2 with _ h3
+    have : q = [] := (List.append_eq_nil_iff.mp h3).2
+    exact absurd this hq
+
+theorem rep_rdD_nil (io : DblIO D) : ∀ n, rep (rdD io) n [] = .bad .failbit ∨ rep (rdD io) n [] = .ok [] []
+  | 0 => Or.inr rfl
+  | n + 1 => Or.inl (by simp [rep, rdD])
+
+theorem rdEntry_nil (io : DblIO D) (S A O oldH : Nat) (e : VEntry D) (r : Stream) : rdEntry io S A O oldH [] ≠ .ok e r := by
+  intro h
+  simp only [rdEntry, bind_ok_iff] at h
+  obtain ⟨vals, s1, h1, a, s2, h2, _⟩ := h
+  rcases rep_rdD_nil io S with h0 | h0
+  · rw [h0] at h1; cases h1
+  · rw [h0] at h1
+    injection h1 with _ hs
+    subst hs
+    simp [rdN] at h2
+
+theorem polLoop_nil (io : DblIO D) (S A O : Nat) : ∀ (f : Nat) (vf : VF D) (b : Bool) (o : Nat) (y : VF D) (r : Stream),
+    polLoop io S A O f vf b o [] ≠ .ok y r
+  | 0, _, _, _, _, _ => by simp [polLoop]
+  | f + 1, vf, true, o, y, r => by
+    simp only [polLoop, atSign]
+    exact polLoop_nil io S A O f _ false _ y r
+  | f + 1, vf, false, o, y, r => by
+    simp only [polLoop]
+    split
+    · simp
+    · rename_i e s' he
+      exact absurd he (rdEntry_nil io S A O o e s')
+
+theorem atSign_append (s q : Stream) (hs : s ≠ []) : atSign (s ++ q) = ((atSign s).1, (atSign s).2 ++ q) := by
+  cases s with
+  | nil => exact absurd rfl hs
+  | cons t ts =>
+    cases t with
+    | nil => rfl
+    | cons c r =>
+      by_cases hc : c = '@'
+      · subst hc
+        simp only [List.cons_append, atSign, pushBack_append]
+      · have h1 : atSign ((c :: r) :: ts) = (false, (c :: r) :: ts) := atSign_nonAt _ _ (by simpa using hc)
+        have h2 : atSign ((c :: r) :: (ts ++ q)) = (false, (c :: r) :: (ts ++ q)) := atSign_nonAt _ _ (by simpa using hc)
+        simp only [List.cons_append, h1, h2]
+
+/-- more fuel never changes a successful run of the policy loop -/
+theorem polLoop_mono (io : DblIO D) (S A O : Nat) : ∀ (f : Nat) (vf : VF D) (b : Bool) (o : Nat) (s : Stream) (y : VF D) (r : Stream),
+    polLoop io S A O f vf b o s = .ok y r → polLoop io S A O (f + 1) vf b o s = .ok y r
+  | 0, _, _, _, _, _, _, h => by simp [polLoop] at h
+  | f + 1, vf, true, o, s, y, r, h => by
+    cases hb : atSign s with
+    | mk b s' =>
+      cases b with
+      | true => simp only [polLoop, hb] at h ⊢; exact h
+      | false =>
+        simp only [polLoop, hb] at h ⊢
+        exact polLoop_mono io S A O f _ false _ s y r h
+  | f + 1, vf, false, o, s, y, r, h => by
+    cases he : rdEntry io S A O o s with
+    | bad e => simp [polLoop, he] at h
+    | ok e s' =>
+      simp only [polLoop, he] at h ⊢
+      exact polLoop_mono io S A O f _ _ o _ y r h
+
+theorem polLoop_mono' (io : DblIO D) (S A O : Nat) (f g : Nat) (hfg : f ≤ g) (vf : VF D) (b : Bool) (o : Nat) (s : Stream) (y : VF D) (r : Stream)
+    (h : polLoop io S A O f vf b o s = .ok y r) : polLoop io S A O g vf b o s = .ok y r := by
+  induction g with
+  | zero => have : f = 0 := by omega
+            subst this; exact h
+  | succ g ih =>
+    by_cases hg : f ≤ g
+    · exact polLoop_mono io S A O g vf b o s y r (ih hg)
+    · have : f = g + 1 := by omega
+      subst this; exact h
+
+theorem ext_polLoop (io : DblIO D) (S A O : Nat) : ∀ (f : Nat) (vf : VF D) (b : Bool) (o : Nat), Ext (polLoop io S A O f vf b o)
+  | 0, _, _, _ => by intro p q y r h; simp [polLoop] at h
+  | f + 1, vf, true, o => by
+    intro p q y r h
+    by_cases hp : p = []
+    · subst hp; exact absurd h (polLoop_nil io S A O _ _ _ _ y r)
+    · have ha := atSign_append p q hp
+      simp only [polLoop] at h ⊢
+      cases hb : (atSign p).1 with
+      | true =>
+        have e1 : atSign p = (true, (atSign p).2) := by rw [← hb]
+        have e2 : atSign (p ++ q) = (true, (atSign p).2 ++ q) := by rw [ha, hb]
+        rw [e1] at h
+        rw [e2]
+        simp only [R.ok.injEq] at h ⊢
+        exact ⟨h.1, by rw [h.2]⟩
+      | false =>
+        have e1 : atSign p = (false, (atSign p).2) := by rw [← hb]
+        have e2 : atSign (p ++ q) = (false, (atSign p).2 ++ q) := by rw [ha, hb]
+        rw [e1] at h
+        rw [e2]
+        exact ext_polLoop io S A O f _ false _ p q y r h
+  | f + 1, vf, false, o => by
+    intro p q y r h
+    simp only [polLoop] at h ⊢
+    split at h
+    · simp at h
+    · rename_i e s1 he
+      have he' := ext_rdEntry io S A O o p q e s1 he
+      simp only [he']
+      by_cases hs : s1 = []
+      · subst hs
+        exact absurd h (by simpa [atSign] using polLoop_nil io S A O f _ false o y r)
+      · rw [atSign_append s1 q hs]
+        exact ext_polLoop io S A O f _ _ o _ q y r h
+
+theorem streamSize_append (p q : Stream) : streamSize (p ++ q) = streamSize p + streamSize q := by
+  simp [streamSize, List.map_append, List.sum_append]
+
+theorem ext_rdPPol (io : DblIO D) (S A O : Nat) : Ext (rdPPol io S A O) := by
+  intro p q y r h
+  simp only [rdPPol] at h ⊢
+  have h1 := polLoop_mono' io S A O _ (2 * streamSize (p ++ q) + 2) (by rw [streamSize_append]; omega) _ _ _ _ y r h
+  exact ext_polLoop io S A O _ _ _ _ p q y r h1
+
+
+/-- at the level of `operator>>`: a written object cut on a token boundary (at least one token missing) is rejected
+    with a failure signal and the destination is left alone -/
+theorem truncated_load_rejected {α} (rd : Rd α) (wr : α → Stream) (hext : Ext rd) (x : α) (hrt : RoundTrips rd wr x)
+    (dest : α) (p q : Stream) (hpq : wr x = p ++ q) (hq : q ≠ []) :
+    (load rd dest p).sig ≠ none ∧ (load rd dest p).dest = dest := by
+  obtain ⟨e, he⟩ := strict_prefix_fails rd wr hext x hrt p q hpq hq
+  simp [load, he]
+
+theorem truncated_rejected_dexp (io : DblIO D) (pr : Prec) (S A : Nat) (e : DExp D) (hv : dexpValidB S A e = true)
+    (hr : AllMat (RT io pr.dense) e.rewards) (hm : AllMat (RT io pr.dense) e.m2) (dest : DExp D) (p q : Stream)
+    (hpq : wrDExp io pr e = p ++ q) (hq : q ≠ []) :
+    (load (rdDExp io S A) dest p).sig ≠ none ∧ (load (rdDExp io S A) dest p).dest = dest :=
+  truncated_load_rejected _ _ (ext_rdDExp io S A) e (roundtrip_dexp io pr S A e hv hr hm) dest p q hpq hq
+
+theorem truncated_rejected_dmodel (io : DblIO D) (pr : Prec) (S A : Nat) (m : DModel D) (hv : dmodelValidB io S A m = true)
+    (hd : RT io pr.scalar m.discount) (ht : AllMat3 (RT io pr.dense) m.T) (hr : AllMat (RT io pr.dense) m.R)
+    (dest : DModel D) (p q : Stream) (hpq : wrDModel io pr m = p ++ q) (hq : q ≠ []) :
+    (load (rdDModel io S A) dest p).sig ≠ none ∧ (load (rdDModel io S A) dest p).dest = dest :=
+  truncated_load_rejected _ _ (ext_rdDModel io S A) m (roundtrip_dmodel io pr S A m hv hd ht hr) dest p q hpq hq
+
+theorem truncated_rejected_smodel (io : DblIO D) (pr : Prec) (S A : Nat) (m : SModel D) (hv : smodelValidB io S A m = true)
+    (hdimS : S * S < two64) (hdimA : S * A < two64)
+    (hd : RT io pr.scalar m.discount) (ht : ∀ t ∈ m.T, ∀ x ∈ t, RT io pr.sparse x.v) (hr : ∀ x ∈ m.R, RT io pr.sparse x.v)
+    (dest : SModel D) (p q : Stream) (hpq : wrSModel io pr m = p ++ q) (hq : q ≠ []) :
+    (load (rdSModel io S A) dest p).sig ≠ none ∧ (load (rdSModel io S A) dest p).dest = dest :=
+  truncated_load_rejected _ _ (ext_rdSModel io S A) m (roundtrip_smodel io pr S A m hv hdimS hdimA hd ht hr) dest p q hpq hq
+
+theorem truncated_rejected_sexp (io : DblIO D) (pr : Prec) (vd : Bool) (S A : Nat) (e : SExp D) (hv : sexpValidB S A e = true)
+    (hdimS : S * S < two64) (hdimA : S * A < two64) (hc : ∀ t ∈ e.visits, ∀ x ∈ t, CountRT io vd x.v)
+    (hr : ∀ x ∈ e.rewards, RT io pr.sparse x.v) (hm : ∀ x ∈ e.m2, RT io pr.sparse x.v)
+    (dest : SExp D) (p q : Stream) (hpq : wrSExp io pr e = p ++ q) (hq : q ≠ []) :
+    (load (rdSExp io vd S A) dest p).sig ≠ none ∧ (load (rdSExp io vd S A) dest p).dest = dest :=
+  truncated_load_rejected _ _ (ext_rdSExp io vd S A) e (roundtrip_sexp io pr vd S A e hv hdimS hdimA hc hr hm) dest p q hpq hq
+
+theorem truncated_rejected_mpol (io : DblIO D) (pr : Prec) (S A : Nat) (m : Mat D) (hv : mpolValidB io S A m = true)
+    (h : AllMat (RT io pr.dense) m) (dest : Mat D) (p q : Stream) (hpq : wrMPol io pr m = p ++ q) (hq : q ≠ []) :
+    (load (rdMPol io S A) dest p).sig ≠ none ∧ (load (rdMPol io S A) dest p).dest = dest :=
+  truncated_load_rejected _ _ (ext_rdMPol io S A) m (roundtrip_mpol io pr S A m hv h) dest p q hpq hq
+
+theorem truncated_rejected_ppol [DecidableEq D] (io : DblIO D) (hat : NoAt io) (pr : Prec) (S A O : Nat) (vf : VF D)
+    (hv : ppolValidB io S A O vf = true) (hA : A ≤ two64) (hlen : ∀ l ∈ vf, l.length ≤ two64)
+    (hrt : ∀ l ∈ vf.drop 1, ∀ e ∈ l, ∀ d ∈ e.values, RT io pr.pomdpPolicy d)
+    (dest : VF D) (p q : Stream) (hpq : wrPPol io pr vf = p ++ q) (hq : q ≠ []) :
+    (load (rdPPol io S A O) dest p).sig ≠ none ∧ (load (rdPPol io S A O) dest p).dest = dest :=
+  truncated_load_rejected _ _ (ext_rdPPol io S A O) vf (roundtrip_ppol io hat pr S A O vf hv hA hlen hrt) dest p q hpq hq
+
+/-- POMDP models: for any underlying codec that is extensible and round-trips -/
+theorem truncated_rejected_pd {M} (io : DblIO D) (pr : Prec) (rdM : Rd M) (wrM : M → Stream) (vM : M → Bool) (hext : Ext rdM)
+    (S A O : Nat) (x : M × List (Mat D)) (hv : pdValidB io vM S A O x = true) (hM : RoundTrips rdM wrM x.1)
+    (ho : AllMat3 (RT io pr.dense) x.2) (dest : M × List (Mat D)) (p q : Stream) (hpq : wrPD io pr wrM x = p ++ q) (hq : q ≠ []) :
+    (load (rdPD io rdM S A O) dest p).sig ≠ none ∧ (load (rdPD io rdM S A O) dest p).dest = dest :=
+  truncated_load_rejected _ _ (ext_rdPD io rdM hext S A O) x (roundtrip_pd io pr rdM wrM vM S A O x hv hM ho) dest p q hpq hq
+
+theorem truncated_rejected_ps {M} (io : DblIO D) (pr : Prec) (rdM : Rd M) (wrM : M → Stream) (vM : M → Bool) (hext : Ext rdM)
+    (S A O : Nat) (x : M × List (SpMat D)) (hv : psValidB io vM S A O x = true) (hdim : S * O < two64) (hM : RoundTrips rdM wrM x.1)
+    (ho : ∀ t ∈ x.2, ∀ e ∈ t, RT io pr.sparse e.v) (dest : M × List (SpMat D)) (p q : Stream) (hpq : wrPS io pr wrM x = p ++ q) (hq : q ≠ []) :
+    (load (rdPS io rdM S A O) dest p).sig ≠ none ∧ (load (rdPS io rdM S A O) dest p).dest = dest :=
+  truncated_load_rejected _ _ (ext_rdPS io rdM hext S A O) x (roundtrip_ps io pr rdM wrM vM S A O x hv hdim hM ho) dest p q hpq hq
+
 end AITB.Codec
